@@ -202,6 +202,9 @@ type Runner struct {
 	// NoShrinkKeys: disagreement classes that are not worth shrinking on every run (e.g. the keys
 	// listed as `known` in known_findings.json, see LoadKnownKeys); the unshrunk case is kept.
 	NoShrinkKeys map[string]bool
+	// ShrinkKeep, if set, names lines the shrinker must not remove (line i of lines): e.g. the lines
+	// that establish an expensive-to-rebuild setting which is itself part of the failing input.
+	ShrinkKeep func(lines []string, i int) bool
 }
 
 // LoadKnownKeys reads known_findings.json and marks the `known` keys of this property as not to be
@@ -435,6 +438,9 @@ func (r *Runner) shrink(d *Disagreement) {
 	for changed && budget > 0 {
 		changed = false
 		for i := len(lines) - 2; i >= lo && budget > 0; i-- {
+			if r.ShrinkKeep != nil && i < len(lines) && r.ShrinkKeep(lines, i) {
+				continue
+			}
 			cand := append(append([]string{}, lines[:i]...), lines[i+1:]...)
 			budget--
 			if k := bad(cand); k >= 0 {
